@@ -34,22 +34,9 @@ JUSTIFIED = {
 }
 
 
-def _canon(expr: ast.AST, f, depth: int = 3) -> str:
-    """Text of expr with every single-assignment local replaced by its defining expression (bounded): a key that does not
-    change when locals are renamed."""
-    from ..util import local_single_defs
-    import copy
-    defs = local_single_defs(f)
-
-    class Sub(ast.NodeTransformer):
-        def __init__(self, d):
-            self.d = d
-
-        def visit_Name(self, n):
-            if isinstance(n.ctx, ast.Load) and n.id in defs and self.d > 0:
-                return Sub(self.d - 1).visit(copy.deepcopy(defs[n.id]))
-            return n
-    return norm(Sub(depth).visit(copy.deepcopy(expr)))
+def _canon(expr, f, depth: int = 3) -> str:
+    from ..util import canon_text
+    return canon_text(expr, f, depth)
 
 
 def _acyclic_paths(g, start_edges, end_id, limit=4000):
